@@ -142,7 +142,7 @@ def eventLabels (c : Cfg) (e : Env) (sh : StH) : EventH → List String
   | .again p =>
     [if (sh.core.refs p).isSome then "again:while-linked" else "again:after-unlink"] ++
     (if (sh.core.asyncRefs p).isSome then ["again:cancels-registered"] else []) ++
-    (if anyTask sh.core (fun u x => x.param = p && x.pc = .start) then ["again:earlier-task-of-same-function-not-started"] else [])
+    (if anyTask sh.core (fun _ x => x.param = p && x.pc = .start) then ["again:earlier-task-of-same-function-not-started"] else [])
   | .trigC =>
     (match e.thook with
      | some (b, _) =>
